@@ -115,6 +115,10 @@ func c13Case(ch choose.Chooser, rec *ev.Recorder, cfg walkCfg) error {
 		if ch.Int(0, 3, "operatorChangesConfigBeforeRestart") == 0 {
 			nc := genNodeCfg(ch)
 			nc.Key = cfg.node.Key
+			if r.w.jumped {
+				nc.MaxCertSize = 0 // see jWorld.noJumps
+			}
+			r.w.noJumps = r.w.noJumps || nc.MaxCertSize > 0
 			cfg.node = nc
 			r.trace = append(r.trace, fmt.Sprintf("CFG%+v", nc))
 			rec.Class("restarts_with_a_changed_configuration")
